@@ -218,12 +218,12 @@ pub proof fn lemma_zero_bit(c: u64)
         assert(!bit_of(mid[r * wn], b));
     }
 }""",
-         opt_inserts=[('if value == Octet::zero() {', 'before',
+         hint_inserts=[('if value == Octet::zero() {', 'before',
                        'proof { let pr = physical_row as int; lemma_pad(n0 + 1); lemma_basic_div(pad(n0 + 1), 64); lemma_small_mod(pad(n0 + 1) as nat, 64);'
                        ' assert(pr * wn + wn <= h * wn) by (nonlinear_arith) requires pr + 1 <= h, wn >= 0; assert(pr * wn >= 0) by (nonlinear_arith) requires pr >= 0, wn >= 0; }'),
                       ('self.dense_elements[dest] = self.dense_elements[src];', 'before',
                        'proof { assert(src as int == gr * w0 - gk - 1 && dest as int == gr * (w0 + 1) - gk - 1); assert(dest as int - src as int == gr) by (nonlinear_arith) requires src as int == gr * w0 - gk - 1, dest as int == gr * (w0 + 1) - gk - 1; }'),
-                      ('if dest % self.row_word_width() == 1 {', 'before',
+                      ('if dest % self.row_word_width() ==', 'before',
                        'proof { let d = dest as int; let q = gr - 1; let wn1 = w0 + 1;'
                        ' lemma_fundamental_div_mod_converse(d, wn1, q, w0 - gk);'
                        ' assert(self.dense_elements@[d] == respaced(old_words, w0, d)) by { assert(q * w0 + (w0 - gk) - 1 == src as int); }'
